@@ -37,6 +37,7 @@ Inductive stmt :=
 | SDo (body : list stmt) (c : expr)
 | SFor1 (k : bytes) (e : expr) (body : list stmt)
 | SFor2 (k v : bytes) (e : expr) (body : list stmt)
+| SForMulti (ks : list bytes) (v : bytes) (e : expr) (body : list stmt)   (* for ((k1,...,kn), v in e) *)
 | SForC (init : list stmt) (c : option expr) (upd : list stmt) (body : list stmt)
 | SCond (c : expr) (body : list stmt)
 | SBreak | SContinue | SReturn (e : option expr)
@@ -95,6 +96,7 @@ Inductive task :=
 | TWhile (c : expr) (body : list stmt)
 | TDoTail (body : list stmt) (c : expr)
 | TIter (k : bytes) (v : option bytes) (entries : amap) (body : list stmt)
+| TMulti (ks : list bytes) (v : bytes) (entries : amap) (body : list stmt)  (* executeOuter / executeInner *)
 | TForCLoop (c : option expr) (upd : list stmt) (body : list stmt)
 | TEmitNI (nvs : amap)
 | TEmitIdx (isp : bool) (template : amap) (name : bytes) (entries : amap) (keys : list bytes).
@@ -444,6 +446,16 @@ Definition exec_stmt (s : stmt) (st : state) : res (tres * state) :=
       | VMap m => do (o, st2) <- ex (TIter k (Some vn) m body) (push_frame st1); ro o (pop_frame st2)
       | _ => ro ONormal st1
       end
+  | SForMulti ks vn e body =>
+      (* ForLoopMultivariableNode.Execute: the frame for the loop variables is pushed whatever the value is; a break
+         coming back from any key level ends the whole loop *)
+      do (v, st1) <- ev e st;
+      match v with
+      | VMap m =>
+          do (o, st2) <- ex (TMulti ks vn m body) (push_frame st1);
+          ro (match o with OBreak => ONormal | _ => o end) (pop_frame st2)
+      | _ => ro ONormal st1
+      end
   | SForC init c upd body =>
       do (o, st1) <- ex (TSeq init) (push_frame st);
       match o with
@@ -570,6 +582,37 @@ Definition step (t : task) (st : state) : res (tres * state) :=
           | Some s2 =>
               do (o, st1) <- ex (TBlock body) (set_stk s2 st);
               loop_after_body o st1 (rec (TIter k vn more body))
+          end
+      end
+  | TMulti [] vn _ body => ro ONormal st
+  | TMulti (k :: ks) vn [] body => ro ONormal st
+  | TMulti (k :: ks) vn ((key, val) :: more) body =>
+      match a_set_at_scope k (VStr key) (stk st) with
+      | None => ro OErr st
+      | Some s1 =>
+          match ks with
+          | [] =>
+              (* executeInner: bind the value too and run the body *)
+              match a_set_at_scope vn val s1 with
+              | None => ro OErr st
+              | Some s2 =>
+                  do (o, st1) <- ex (TBlock body) (set_stk s2 st);
+                  match o with
+                  | ONormal | OContinue => rec (TMulti (k :: ks) vn more body) st1
+                  | _ => ro o st1                      (* break, return, error: handed upward unchanged *)
+                  end
+              end
+          | _ =>
+              (* executeOuter: descend into map-valued entries, skip the others *)
+              match val with
+              | VMap sub =>
+                  do (o, st1) <- ex (TMulti ks vn sub body) (set_stk s1 st);
+                  match o with
+                  | ONormal => rec (TMulti (k :: ks) vn more body) st1
+                  | _ => ro o st1
+                  end
+              | _ => rec (TMulti (k :: ks) vn more body) (set_stk s1 st)
+              end
           end
       end
   | TForCLoop c upd body =>
